@@ -63,9 +63,9 @@ def critStep (known : Filter) (proxyFwd : Bool) (st : Crit) (n : Nat) : Crit :=
     else st
   if st1.last = some n then
     if nonRepeatable.contains n then
+      -- ok = 0; if (coap_option_filter_set(...) == 0) break;
       let s := st1.unknown.set n
-      if s.2 then { st1 with ok := false, unknown := s.1, last := some n }
-      else { st1 with ok := false, unknown := s.1, stop := true }
+      { st1 with ok := false, unknown := s.1, last := some n, stop := !s.2 }
     else { st1 with last := some n }
   else
     -- (Block2 in a request: M bit cleared in place, see `viewOpts`; the scan's result does not depend on it)
@@ -75,32 +75,9 @@ def critCheck (known : Filter) (proxyFwd : Bool) (os : Opts) : Crit :=
   (os.map (·.1)).foldl (critStep known proxyFwd) ⟨true, Filter.empty, false, none, false⟩
 
 /-! ### request view -/
-/-- coap_encode_var_safe: minimal big-endian bytes -/
-def encodeVar : (fuel : Nat) → Nat → Bytes
-  | 0, _ => []
-  | f + 1, v => if v = 0 then [] else encodeVar f (v / 256) ++ [UInt8.ofNat (v % 256)]
-
-def lastByte (b : Bytes) : Nat := match b.getLast? with | some x => x.toNat | none => 0
-
-/-- coap_get_block_b() on a UDP session: none when SZX = 7 (no BERT); (num, m, szx) -/
-def getBlock (v : Bytes) : Option (Nat × Bool × Nat) :=
-  let szx := lastByte v % 8
-  if szx = 7 then none else some (uintOf v / 16, lastByte v / 8 % 2 == 1, szx)
-
-/-- the Block2 M-bit clearing of coap_option_check_critical (first Block2 option only) -/
-def clearBlock2M : Opts → Opts
-  | [] => []
-  | (n, v) :: r =>
-    if n = 23 then
-      match getBlock v with
-      | some (num, true, szx) => (23, encodeVar 4 (num * 16 + szx)) :: r
-      | _ => (n, v) :: r
-    else (n, v) :: clearBlock2M r
-
-/-- coap_update_option(pdu, COAP_OPTION_HOP_LIMIT, hop_limit - 1) -/
-def setHop (h : Nat) : Opts → Opts
-  | [] => []
-  | (n, v) :: r => if n = 16 then (16, encodeVar 8 h) :: r else (n, v) :: setHop h r
+/- coap_encode_var_safe = `minimalUint`, coap_get_block_b on UDP = `block`, the Block2 M-bit clearing of
+   coap_option_check_critical = `clearBlock2M`, coap_update_option(Hop-Limit) = `setHop`: value formats shared with S
+   (Spec/Server.lean, vocabulary). -/
 
 /-- coap_get_uri_path() without Proxy-Uri -/
 def uriPathLoop : (first : Bool) → Opts → Bytes
@@ -286,7 +263,7 @@ def handleRequest (cfg : Cfg) (tbl : Table) (rq : Request) (critOpt : Bool) (os 
     if observe then
       let action := uintOf ((firstOpt os 6).getD []) % 4294967296
       if action = 0 then
-        match (firstOpt os 23).bind getBlock with
+        match (firstOpt os 23).bind block with
         | some (num, _, _) => if num ≠ 0 then none else some { resp0 with opts := [(6, [2])] }
         | none => some { resp0 with opts := [(6, [2])] }
       else some resp0
